@@ -1,3 +1,44 @@
 import VpnCloud.Model.Node
+import VpnCloud.Proofs.Lemmas.NodeLemmas
+/-
+  C10 — no relaying: a frame read from the interface goes only to current peers and never back to an
+  interface; whatever is emitted while a received datagram is processed is a handshake datagram or goes
+  back to the sender.  All statements are proved as given (no hypothesis added).
+-/
 namespace VpnCloud.Proofs.C10
+
+open VpnCloud VpnCloud.Node
+open VpnCloud.Proofs.NodeLemmas
+
+/-- a frame read from the interface never comes back to an interface -/
+theorem iface_read_no_iface_write (o : Oracle) (n : Node) (now : Int) (data : Bytes) :
+    ∀ b, Out.iface b ∉ (handleIface o n now data).outs := by
+  intro b hb
+  obtain ⟨d, b', h, _⟩ := (handleIface_toPeers o n now data).1 _ hb
+  cases h
+
+/-- every datagram caused by an interface read goes to a current peer -/
+theorem iface_read_only_to_peers (o : Oracle) (n : Node) (now : Int) (data : Bytes) :
+    ∀ d b, Out.dgram d b ∈ (handleIface o n now data).outs → (lookupA n.peers d).isSome := by
+  intro d b hb
+  obtain ⟨d', b', h, hk⟩ := (handleIface_toPeers o n now data).1 _ hb
+  cases h
+  exact (lookupA_isSome_iff n.peers d).2 hk
+
+/-- **net_never_relays**: whatever a node emits while processing a received datagram is either a handshake datagram or goes back to the sender -/
+theorem net_never_relays (env : CryptoEnv) (bodyOf : Init.BodyOf) (o : Oracle) (n : Node) (now : Int) (src : NAddr) (data tail : Bytes) :
+    ∀ d b, Out.dgram d b ∈ (handleNet env bodyOf o n now src data tail).1.outs →
+      d = mappedAddr src ∨ b.head? = some Generated.INIT_MESSAGE_FIRST_BYTE := by
+  intro d b h
+  rcases (handleNet_ext env bodyOf o n now src data tail).mem h with h | h | h | h
+  · simp at h
+  · obtain ⟨b', hb⟩ := h
+    cases hb
+    exact Or.inl rfl
+  · obtain ⟨d', b', hb⟩ := h
+    cases hb
+    exact Or.inr rfl
+  · obtain ⟨b', hb⟩ := h
+    cases hb
+
 end VpnCloud.Proofs.C10
